@@ -2,8 +2,10 @@
    scenario  :F <op>*   op ::= :g n | :l n $file line | :a fam $file line | :k | :c
              :C custom <cop>*   cop ::= :o | :r | :d n | :m fam
              :R backing <rop>*  rop ::= :o | :r | :d n | :m fam | :s fam slot | :f slot | :y slot size | :g n | :c
+             :T pre <tev>* :| <tev>* :| <tev>*   (one test: setup :| body :| teardown)   tev ::= op | :+ (addFailure) | :! (FAIL)
    observation items: 0|1|2 (block | NULL | bad_alloc), :n | :G n | :L $file line | :X (check), :A 0|1|2|3 (reset),
-   :P res intact (dup), :Q failure given (free), :Y res failure intact (realloc), :E tracked clean (end of an :R scenario) *)
+   :P res intact (dup), :Q failure given (free), :Y res failure intact (realloc), :E tracked clean (end of an :R scenario),
+   :K before after <check item> (check asked inside a test), :p n (end of a test function: events started) *)
 let fam_of = function 0 -> FDirect | 1 -> FMalloc | 2 -> FCalloc | 3 -> FStrdup | 4 -> FStrndup | 5 -> FNew | 6 -> FNewArr
   | 7 -> FNewNT | 8 -> FNewArrNT | _ -> raise (Bad "family")
 let cfam_of = function 0 -> CMalloc | 1 -> CCalloc | 2 -> CStrdup | 3 -> CStrndup | _ -> raise (Bad "cfam")
@@ -16,6 +18,18 @@ let rec ops c = if at_end c then [] else
     | ":k" -> Check
     | ":c" -> Clear
     | t -> raise (Bad ("op " ^ t))) in o :: ops c
+(* events of one test function: up to the separator :| (consumed) or the end *)
+let rec tevs c = if at_end c then [] else
+  match next c with
+  | ":|" -> []
+  | ":+" -> TAdd :: tevs c
+  | ":!" -> TFail :: tevs c
+  | ":g" -> let n = z_tok (next c) in TOp (FailG n) :: tevs c
+  | ":l" -> let n = z_tok (next c) in let l = loc_tok c in TOp (FailAt (n, l)) :: tevs c
+  | ":a" -> let f = fam_of (int_tok (next c)) in let l = loc_tok c in TOp (Alloc (f, l)) :: tevs c
+  | ":k" -> TOp Check :: tevs c
+  | ":c" -> TOp Clear :: tevs c
+  | t -> raise (Bad ("tev " ^ t))
 let rec cops c = if at_end c then [] else
   let o = (match next c with
     | ":o" -> CSetOOM
@@ -41,14 +55,20 @@ let scenario ts = let c = { rest = ts } in
   | ":F" -> SFail (ops c)
   | ":C" -> let cu = bool_tok (next c) in SCount (cu, cops c)
   | ":R" -> let b = backing_of (next c) in SRel (b, rops c)
+  | ":T" -> let pre = z_tok (next c) in let su = tevs c in let bo = tevs c in let td = tevs c in
+            if at_end c then STest (pre, su, bo, td) else raise (Bad "more than three test functions")
   | t -> raise (Bad ("scenario kind " ^ t))
 let pres = function ROk -> "0" | RNull -> "1" | RBadAlloc -> "2" | RCrash -> "3"
+let prep = function
+  | None -> ":n"
+  | Some (RepG n) -> ":G " ^ pz n
+  | Some (RepL (f, l)) -> ":L " ^ pbytes f ^ " " ^ pn l
+  | Some RepAnon -> ":X"
 let pitem = function
   | OAlloc r -> pres r
-  | OCheck None -> ":n"
-  | OCheck (Some (RepG n)) -> ":G " ^ pz n
-  | OCheck (Some (RepL (f, l))) -> ":L " ^ pbytes f ^ " " ^ pn l
-  | OCheck (Some RepAnon) -> ":X"
+  | OCheck r -> prep r
+  | OCheckT (b, a, r) -> ":K " ^ pz b ^ " " ^ pz a ^ " " ^ prep r
+  | OPhase k -> ":p " ^ pnat k
   | OReset a -> ":A " ^ (match a with ADefault -> "0" | ACustom -> "1" | ANull -> "2" | AFailable -> "3")
   | ODup (r, i) -> ":P " ^ pres r ^ " " ^ pbool i
   | OFree (f, g) -> ":Q " ^ pbool f ^ " " ^ pbool g
@@ -56,8 +76,16 @@ let pitem = function
   | OEnd (t, cl) -> ":E " ^ pz t ^ " " ^ pbool cl
 let pobs o = let s = String.concat " " (List.map pitem o) in if s = "" then ":-" else s
 let res_of = function "0" -> ROk | "1" -> RNull | "2" -> RBadAlloc | "3" -> RCrash | t -> raise (Bad ("result " ^ t))
+let rep_tok c = match next c with
+  | ":n" -> None
+  | ":G" -> Some (RepG (z_tok (next c)))
+  | ":L" -> Some (RepL (loc_tok c))
+  | ":X" -> Some RepAnon
+  | t -> raise (Bad ("check item " ^ t))
 let rec items c = if at_end c then [] else
   let i = (match next c with
+    | ":K" -> let b = z_tok (next c) in let a = z_tok (next c) in OCheckT (b, a, rep_tok c)
+    | ":p" -> OPhase (nat_tok (next c))
     | "0" -> OAlloc ROk | "1" -> OAlloc RNull | "2" -> OAlloc RBadAlloc | "3" -> OAlloc RCrash
     | ":P" -> let r = res_of (next c) in ODup (r, bool_tok (next c))
     | ":Q" -> let f = bool_tok (next c) in OFree (f, bool_tok (next c))
